@@ -8,6 +8,7 @@ from vf.world.cmds import ROOT
 from vf.world.proj import Project
 
 META = {
+    "solver_reasoned": 'index of the failing scheduler command and index of the operation at which the process is killed (symbolic ints, ranges measured from an uninterrupted run).',
     "real": ["gwf.plugins.run.run (body)", "gwf.scheduling.submit_workflow/schedule/submit_backend", "gwf.backends.base.TrackingBackend.__init__/submit/close/__exit__", "gwf.core.FileSpecHashes.__init__/update/close/__exit__",
              "gwf.utils.atomic_write_json", "gwf.backends.utils.call", "gwf.backends.{slurm,sge,lsf}.*Ops.submit_target/get_job_states", "gwf.backends.local.Client/LocalOps"],
     "stubs": ["scheduler simulator with fault injection at the k-th command (non-zero exit / 'error:' on stderr with exit 0 / garbage on stdout with exit 0; the command then has no effect)",
